@@ -392,6 +392,80 @@ Definition l0_escaped (l seps : list N) (esc : N) : list N :=
   else if (count_if (is_sep seps) l =? 0) && (count_ch esc l =? 0) then l
   else esc_fold seps esc false 0 l [].
 
+(* GetDistanceTo: Levenshtein distance, capped at maxResult.  One row of the dynamic programme: [up] is the previous
+   row from column 1 on, [left] the entry just written, [diag] the previous row's entry to the left *)
+Fixpoint lev_row (up a : list N) (c left diag : N) : list N :=
+  match a, up with
+  | ay :: a', u :: up' =>
+      let v := N.min (N.min (u + 1) (left + 1)) (diag + (if ay =? c then 0 else 1)) in
+      v :: lev_row up' a' c v u
+  | _, _ => []
+  end.
+Fixpoint iotaN (start : N) (n : nat) : list N := match n with O => [] | S k => start :: iotaN (start + 1) k end.
+Fixpoint lev_rows (a b : list N) (x : N) (row : list N) : list N :=
+  match b with
+  | [] => row
+  | c :: t => lev_rows a t (x + 1) ((x + 1) :: lev_row (tl row) a c (x + 1) (hd 0 row))
+  end.
+Definition lev (a b : list N) : N := last (lev_rows a b 0 (iotaN 0 (S (length a)))) 0.
+Definition l0_distance (a b : list N) (max : N) : N := N.min (lev a b) max.
+
+(* the same programme with the code's early exit: the pinned tree tested the last column of the row, the repaired
+   code tests the minimum of the row *)
+Fixpoint lev_rows_exit (fixed : bool) (a b : list N) (x : N) (row : list N) (max : N) : list N :=
+  match b with
+  | [] => row
+  | c :: t => let row' := (x + 1) :: lev_row (tl row) a c (x + 1) (hd 0 row) in
+              let test := if fixed then fold_right N.min (x + 1) row' else last row' 0 in
+              if max <=? test then row' else lev_rows_exit fixed a t (x + 1) row' max
+  end.
+Definition distance_code (fixed : bool) (a b : list N) (max : N) : N :=
+  let '(sh, lo) := if lenN b <? lenN a then (b, a) else (a, b) in
+  N.min (last (lev_rows_exit fixed sh lo 0 (iotaN 0 (S (length sh))) max) 0) max.
+
+(* NumericAwareStrcmp / NumericAwareStrcasecmp (Martin Pool's strnatcmp as adapted in util/String.cpp), sign of the result.
+   Strings are seen as C strings: the byte after the last one is 0.  `char` is signed, isspace/isdigit are the C locale's. *)
+Definition is_cspace (c : N) : bool := (c =? 32) || ((9 <=? c) && (c <=? 13)).
+Definition schar (x : N) : Z := if x <? 128 then Z.of_N x else (Z.of_N x - 256)%Z.
+Fixpoint nat_right (fuel : nat) (a b : list N) (bias : Z) : Z :=
+  match fuel with
+  | O => bias
+  | S f =>
+    let ca := nthN 0 a in let cb := nthN 0 b in
+    if negb (is_digit ca) && negb (is_digit cb) then bias
+    else if negb (is_digit ca) then (-1)%Z
+    else if negb (is_digit cb) then 1%Z
+    else nat_right f (tl a) (tl b)
+           (if (bias =? 0)%Z then (if ca <? cb then (-1)%Z else if cb <? ca then 1%Z else 0%Z) else bias)
+  end.
+Fixpoint nat_left (fuel : nat) (a b : list N) : Z :=
+  match fuel with
+  | O => 0%Z
+  | S f =>
+    let ca := nthN 0 a in let cb := nthN 0 b in
+    if negb (is_digit ca) && negb (is_digit cb) then 0%Z
+    else if negb (is_digit ca) then (-1)%Z
+    else if negb (is_digit cb) then 1%Z
+    else if ca <? cb then (-1)%Z else if cb <? ca then 1%Z else nat_left f (tl a) (tl b)
+  end.
+Fixpoint natcmp (fuel : nat) (a b ra rb : list N) (fold : bool) : Z :=
+  match fuel with
+  | O => 0%Z
+  | S f =>
+    let ra := drop_while is_cspace ra in
+    let rb := drop_while is_cspace rb in
+    let ca := nthN 0 ra in let cb := nthN 0 rb in
+    let n := S (length ra + length rb) in
+    let r := if is_digit ca && is_digit cb
+             then (if (ca =? 48) || (cb =? 48) then nat_left n ra rb else nat_right n ra rb 0%Z) else 0%Z in
+    if negb (r =? 0)%Z then r
+    else if (ca =? 0) && (cb =? 0) then cmp_bytes a b
+    else let xa := schar (if fold then to_upper ca else ca) in
+         let xb := schar (if fold then to_upper cb else cb) in
+         if (xa <? xb)%Z then (-1)%Z else if (xb <? xa)%Z then 1%Z else natcmp f a b (tl ra) (tl rb) fold
+  end.
+Definition l0_natcmp (a b : list N) (fold : bool) : Z := natcmp (S (length a + length b)) a b a b fold.
+
 Definition l0_padded (l : list N) (minLen : N) (right : bool) (ch : N) : list N :=
   if (lenN l <? minLen) && negb (ch =? 0)
   then (if right then l ++ repN ch (minLen - lenN l) else repN ch (minLen - lenN l) ++ l)
